@@ -79,6 +79,9 @@ def evaluate(case: Case, tier: str) -> Outcome:
     if prg is None:
         out.status, out.reason = "discard", "source_syntax"
         return out
+    if astutil.gringo_scope_quirk(prg):
+        out.status, out.reason = "discard", "gringo_scope_quirk"
+        return out
     if astutil.may_ground_infinitely(prg) or oracle.grounds(case.src, "", case.consts).status != "ok":
         out.status, out.reason = "discard", "source_rejected"
         return out
